@@ -23,7 +23,9 @@ import (
 	zz "github.com/haqq-network/haqq/zzverif"
 )
 
-//verif:override (github.com/cosmos/cosmos-sdk/x/staking/keeper.Querier).Delegation -> c16Delegation
+//verif:override (github.com/cosmos/cosmos-sdk/x/staking/keeper.Querier).Delegation -> c16Delegation except=VerifC16_DelegationAfterSlash
+//verif:override (github.com/cosmos/cosmos-sdk/x/staking/keeper.Keeper).GetDelegation -> c16GetDelegation
+//verif:override (github.com/cosmos/cosmos-sdk/x/staking/keeper.Keeper).GetValidator -> c16GetValidator
 //verif:override (github.com/cosmos/cosmos-sdk/x/staking/keeper.Querier).UnbondingDelegation -> c16Unbonding
 //verif:override (github.com/cosmos/cosmos-sdk/x/staking/keeper.Querier).Validator -> c16Validator
 //verif:override github.com/haqq-network/haqq/precompiles/staking.FormatConsensusPubkey -> c16FormatPubkey
@@ -116,3 +118,54 @@ func VerifC16_StakingQueries() {
 }
 
 var _ = sdkmath.ZeroInt
+
+
+// the staking keeper's state behind the native Query/Delegation: one delegation, its validator (possibly slashed: tokens
+// below delegator shares)
+var c16s struct {
+	found  bool
+	shares sdk.Dec
+	tokens sdkmath.Int
+	total  sdk.Dec
+}
+
+func c16GetDelegation(k sdkstakingkeeper.Keeper, ctx sdk.Context, delAddr sdk.AccAddress, valAddr sdk.ValAddress) (stakingtypes.Delegation, bool) {
+	if !c16s.found {
+		return stakingtypes.Delegation{}, false
+	}
+	return stakingtypes.Delegation{DelegatorAddress: delAddr.String(), ValidatorAddress: valAddr.String(), Shares: c16s.shares}, true
+}
+func c16GetValidator(k sdkstakingkeeper.Keeper, ctx sdk.Context, addr sdk.ValAddress) (stakingtypes.Validator, bool) {
+	return stakingtypes.Validator{OperatorAddress: addr.String(), Tokens: c16s.tokens, DelegatorShares: c16s.total}, true
+}
+
+// VerifC16_DelegationAfterSlash: the delegation query of the precompile against the real native Query/Delegation over the
+// same keeper state, for validators that were slashed (a share is worth a fraction of a token, so the token value of a
+// delegation is not integral): both report the same shares and the same balance.
+func VerifC16_DelegationAfterSlash() {
+	env := zz.NewEnv([]string{"staking"}, nil)
+	ctx := env.Ctx.WithBlockTime(time.Unix(1700000000, 0))
+	p := Precompile{Precompile: cmn.Precompile{}, stakingKeeper: stakingkeeper.Keeper{Keeper: &sdkstakingkeeper.Keeper{}}}
+	del := common.HexToAddress("0x1000000000000000000000000000000000000001")
+	delBech := sdk.AccAddress(del.Bytes()).String()
+	// (tokens, total shares, delegation shares x 10): exact value; fraction below and above one half
+	w := [][3]int64{{20, 20, 30}, {19, 20, 10}, {19, 20, 14}, {19, 20, 19}, {95, 100, 15}}[zz.Choose("state", 5)]
+	c16s.found = zz.AnyBool("delegationExists")
+	c16s.tokens, c16s.total, c16s.shares = sdkmath.NewInt(w[0]), sdk.NewDec(w[1]), sdk.NewDecWithPrec(w[2], 1)
+	native, nerr := sdkstakingkeeper.Querier{Keeper: p.stakingKeeper.Keeper}.Delegation(sdk.WrapSDKContext(ctx), &stakingtypes.QueryDelegationRequest{DelegatorAddr: delBech, ValidatorAddr: c04Val})
+	_, err := p.Delegation(ctx, nil, &abi.Method{Name: "q"}, []interface{}{del, c04Val})
+	zz.Assert(err == nil, "the precompile query succeeds (a missing delegation answers zero)")
+	if err != nil {
+		return
+	}
+	shares, bal := zz.LastPacked[0].(*big.Int), zz.LastPacked[1].(cmn.Coin)
+	if !c16s.found {
+		zz.Assert(nerr != nil && shares.Sign() == 0 && bal.Amount.Sign() == 0, "no delegation: the native query reports not found, the precompile zero")
+		zz.Reach("?none")
+	} else {
+		zz.Assert(nerr == nil, "the native query succeeds")
+		zz.Assert(shares.Cmp(native.DelegationResponse.Delegation.Shares.BigInt()) == 0, "the precompile reports the shares of the native answer")
+		zz.Assert(bal.Amount.Cmp(native.DelegationResponse.Balance.Amount.BigInt()) == 0, "the precompile reports the balance of the native answer, also when a share is worth a fraction of a token")
+	}
+	zz.Reach("end")
+}
